@@ -235,13 +235,17 @@ Ltac exec_open H p pc :=
   pose proof (instr_widths p pc) as HW;
   destruct (instr_of (opcode_at p pc)) eqn:EI; cbn [cat_of_instr widths_ok] in H, HW.
 
+Lemma tuple4_inj : forall {A B C D} (a a' : A) (b b' : B) (c c' : C) (d d' : D),
+  (a, b, c, d) = (a', b', c', d') -> a = a' /\ b = b' /\ c = c' /\ d = d'.
+Proof. intros. inversion H. auto. Qed.
+
 Lemma exec_wf : forall p pc r m e t r' m', wf_code p -> wf_regs r -> wf_mem m ->
   exec p pc r m = (e, t, r', m') -> wf_regs r' /\ wf_mem m'.
 Proof.
   intros p pc r m e t r' m' Hc Hr Hm H.
   assert (GA : forall i, u64 (greg r i)) by (intros; apply greg_range; assumption).
   exec_open H p pc;
-    try solve [ inversion H; subst; split; [|assumption];
+    try solve [ apply tuple4_inj in H; destruct H as (? & ? & ? & ?); subst; split; [|assumption];
                 first [ assumption
                       | apply sreg_wf; [assumption|];
                         first [ apply decode_cat_vX; [assumption|reflexivity]
@@ -251,25 +255,296 @@ Proof.
                               | apply eval_alu3_range; apply GA ] ] ].
   - (* IStoreImm *) apply do_store_cases in H. destruct H as [-> [[S _]|[[_ [_ ->]]|[f [_ [_ ->]]]]]]; split; auto.
     eapply store_wf; eassumption.
-  - (* IJump *) destruct (branch _ _ _ _) as [e0 t0]. inversion H; subst; auto.
-  - (* IJumpInd *) destruct (djump _ _) as [e0 t0]. inversion H; subst; auto.
+  - (* IJump *) destruct (branch _ _ _ _) as [e0 t0]. apply tuple4_inj in H; destruct H as (? & ? & ? & ?); subst; auto.
+  - (* IJumpInd *) destruct (djump _ _) as [e0 t0]. apply tuple4_inj in H; destruct H as (? & ? & ? & ?); subst; auto.
   - (* ILoad *) apply do_load_cases in H. destruct H as [-> [[v [L [_ [_ ->]]]]|[[_ [_ ->]]|[f [_ [_ ->]]]]]]; split; auto.
     apply sreg_wf; [assumption|]. eapply load_value_u64; eassumption.
   - (* IStore *) apply do_store_cases in H. destruct H as [-> [[S _]|[[_ [_ ->]]|[f [_ [_ ->]]]]]]; split; auto.
     eapply store_wf; eassumption.
   - (* IStoreImmInd *) apply do_store_cases in H. destruct H as [-> [[S _]|[[_ [_ ->]]|[f [_ [_ ->]]]]]]; split; auto.
     eapply store_wf; eassumption.
-  - (* ILoadImmJump *) destruct (branch _ _ _ _) as [e0 t0]. inversion H; subst. split; [|assumption].
+  - (* ILoadImmJump *) destruct (branch _ _ _ _) as [e0 t0]. apply tuple4_inj in H; destruct H as (? & ? & ? & ?); subst. split; [|assumption].
     apply sreg_wf; [assumption|]. apply decode_cat_vX; [assumption|reflexivity].
-  - (* IBranchImm *) destruct (branch _ _ _ _) as [e0 t0]. inversion H; subst; auto.
-  - (* ISbrk *) destruct (sbrk m _) as [v m2] eqn:S. inversion H; subst. split.
+  - (* IBranchImm *) destruct (branch _ _ _ _) as [e0 t0]. apply tuple4_inj in H; destruct H as (? & ? & ? & ?); subst; auto.
+  - (* ISbrk *) destruct (sbrk m _) as [v m2] eqn:S. apply tuple4_inj in H; destruct H as (? & ? & ? & ?); subst. split.
     + apply sreg_wf; [assumption|]. eapply sbrk_value_u64; [exact Hm|apply GA|exact S].
     + eapply sbrk_wf; [exact Hm|apply GA|exact S].
   - (* IStoreInd *) apply do_store_cases in H. destruct H as [-> [[S _]|[[_ [_ ->]]|[f [_ [_ ->]]]]]]; split; auto.
     eapply store_wf; eassumption.
   - (* ILoadInd *) apply do_load_cases in H. destruct H as [-> [[v [L [_ [_ ->]]]]|[[_ [_ ->]]|[f [_ [_ ->]]]]]]; split; auto.
     apply sreg_wf; [assumption|]. eapply load_value_u64; eassumption.
-  - (* IBranch *) destruct (branch _ _ _ _) as [e0 t0]. inversion H; subst; auto.
-  - (* ILoadImmJumpInd *) destruct (djump _ _) as [e0 t0]. inversion H; subst. split; [|assumption].
+  - (* IBranch *) destruct (branch _ _ _ _) as [e0 t0]. apply tuple4_inj in H; destruct H as (? & ? & ? & ?); subst; auto.
+  - (* ILoadImmJumpInd *) destruct (djump _ _) as [e0 t0]. apply tuple4_inj in H; destruct H as (? & ? & ? & ?); subst. split; [|assumption].
     apply sreg_wf; [assumption|]. apply decode_cat_vX; [assumption|reflexivity].
+Qed.
+
+(* ---- exec never reports out-of-gas, and names only legal next counters ---- *)
+Ltac inj4 H := apply tuple4_inj in H; destruct H as (? & ? & ? & ?); subst.
+
+Lemma exec_exit : forall p pc r m e t r' m', exec p pc r m = (e, t, r', m') ->
+  e <> OutOfGas /\
+  ((e = Continue \/ exists id, e = Host id) -> t = pc + 1 + skip p pc \/ bb_start p t = true).
+Proof.
+  intros p pc r m e t r' m' H.
+  exec_open H p pc;
+    try solve [ inj4 H; split; [discriminate|intros HH; first [ left; reflexivity | destruct HH as [?|[? ?]]; discriminate ]] ];
+    try solve [ apply do_store_cases in H; destruct H as [_ [[_ [-> ->]]|[[_ [-> _]]|[f [_ [-> _]]]]]];
+                (split; [discriminate|]); intros [?|[? ?]]; try discriminate; auto ];
+    try solve [ apply do_load_cases in H; destruct H as [_ [[v [_ [-> [-> _]]]]|[[_ [-> _]]|[f [_ [-> _]]]]]];
+                (split; [discriminate|]); intros [?|[? ?]]; try discriminate; auto ];
+    try solve [ destruct (branch _ _ _ _) as [e0 t0] eqn:B; inj4 H; apply branch_cases in B;
+                destruct B as [[-> [->|B]]|[-> ->]]; (split; [discriminate|]); intros [?|[? ?]]; try discriminate; auto ];
+    try solve [ destruct (djump _ _) as [e0 t0] eqn:B; inj4 H; apply djump_cases in B;
+                destruct B as [[-> B]|[[-> ->]|[-> ->]]]; (split; [discriminate|]); intros [?|[? ?]]; try discriminate; auto ].
+  - (* ISbrk *) destruct (sbrk m _) as [v m2]. inj4 H. split; [discriminate|auto].
+Qed.
+
+Lemma exec_past_end : forall p pc r m, code_len p <= pc -> exec p pc r m = (Panic, 0, r, m).
+Proof.
+  intros p pc r m H. unfold exec, opcode_at. rewrite (zeta_past_end p pc H). reflexivity.
+Qed.
+
+(* ---- a faulting or panicking memory access changes nothing; the fault address lies inside the access ---- *)
+Lemma width_small : forall w, width_ok w = true -> Z.of_nat w <= LOW.
+Proof. intros w H. unfold width_ok, LOW in *. lia. Qed.
+
+Lemma mod_addr_range : forall x, 0 <= x mod ADDR < ADDR.
+Proof. intros; unfold ADDR; lia. Qed.
+
+Lemma exec_fault : forall p pc r m a t r' m', exec p pc r m = (Fault a, t, r', m') ->
+  r' = r /\ m' = m /\
+  exists lo w, access_of (instr_of (opcode_at p pc)) (decode p pc) r = Some (lo, w) /\
+               PAGE * (lo / PAGE) <= a <= lo + Z.of_nat w - 1.
+Proof.
+  intros p pc r m a t r' m' H. rewrite (decode_instr p pc).
+  exec_open H p pc;
+    try solve [ inj4 H; discriminate ];
+    try solve [ apply do_store_cases in H;
+                destruct H as [-> [[_ [E _]]|[[_ [E _]]|[f [S [E ->]]]]]]; try discriminate;
+                injection E as <-; split; [reflexivity|split; [reflexivity|]];
+                eexists; eexists; split; [reflexivity|];
+                eapply store_fault_bounds; [apply mod_addr_range|apply width_small; exact HW|exact S] ];
+    try solve [ apply do_load_cases in H;
+                destruct H as [-> [[v [_ [E _]]]|[[_ [E _]]|[f [S [E ->]]]]]]; try discriminate;
+                injection E as <-; split; [reflexivity|split; [reflexivity|]];
+                eexists; eexists; split; [reflexivity|];
+                eapply load_fault_bounds; [apply mod_addr_range|apply width_small; exact HW|exact S] ];
+    try solve [ destruct (branch _ _ _ _) as [e0 t0] eqn:B; inj4 H; apply branch_cases in B;
+                destruct B as [[? _]|[? _]]; discriminate ];
+    try solve [ destruct (djump _ _) as [e0 t0] eqn:B; inj4 H; apply djump_cases in B;
+                destruct B as [[? _]|[[? _]|[? _]]]; discriminate ].
+  - destruct (sbrk m _) as [v m2]. inj4 H. discriminate.
+Qed.
+
+Lemma exec_mem_panic : forall p pc r m t r' m',
+  is_mem_instr (instr_of (opcode_at p pc)) = true ->
+  exec p pc r m = (Panic, t, r', m') -> r' = r /\ m' = m.
+Proof.
+  intros p pc r m t r' m' HI H.
+  exec_open H p pc; try discriminate;
+    try solve [ apply do_store_cases in H;
+                destruct H as [-> [[_ [E _]]|[[_ [_ ->]]|[f [_ [E _]]]]]]; try discriminate; auto ];
+    try solve [ apply do_load_cases in H;
+                destruct H as [-> [[v [_ [E _]]]|[[_ [_ ->]]|[f [_ [E _]]]]]]; try discriminate; auto ].
+Qed.
+
+(* ---- the heap: limit constant, pointer monotone and never above the limit ---- *)
+Lemma exec_heap : forall p pc r m e t r' m', wf_regs r -> exec p pc r m = (e, t, r', m') ->
+  m_hl m' = m_hl m /\ m_hp m <= m_hp m' /\ (heap_ok m -> heap_ok m').
+Proof.
+  intros p pc r m e t r' m' Hr H. unfold heap_ok.
+  exec_open H p pc;
+    try solve [ inj4 H; repeat split; auto; lia ];
+    try solve [ apply do_store_cases in H;
+                destruct H as [_ [[S _]|[[_ [_ ->]]|[f [_ [_ ->]]]]]]; try (repeat split; auto; lia);
+                apply store_effect in S; [|apply width_small in HW; unfold LOW, ADDR in *; lia];
+                destruct S as (_ & _ & _ & _ & -> & ->); repeat split; auto; lia ];
+    try solve [ apply do_load_cases in H; destruct H as [-> _]; repeat split; auto; lia ];
+    try solve [ destruct (branch _ _ _ _) as [e0 t0]; inj4 H; repeat split; auto; lia ];
+    try solve [ destruct (djump _ _) as [e0 t0]; inj4 H; repeat split; auto; lia ].
+  - destruct (sbrk m _) as [v m2] eqn:S. inj4 H.
+    pose proof (sbrk_heap _ _ _ _ S (proj1 (greg_range r _ Hr))) as (A & B & C & _). auto.
+Qed.
+
+(* ---- the page map changes only through sbrk ---- *)
+Lemma exec_pages : forall p pc r m e t r' m',
+  instr_of (opcode_at p pc) <> ISbrk -> exec p pc r m = (e, t, r', m') ->
+  (forall i, mapped m' i = mapped m i) /\ (forall x, acc_at m' x = acc_at m x) /\ m_hp m' = m_hp m.
+Proof.
+  intros p pc r m e t r' m' HN H.
+  exec_open H p pc; try congruence;
+    try solve [ inj4 H; auto ];
+    try solve [ apply do_store_cases in H;
+                destruct H as [_ [[S _]|[[_ [_ ->]]|[f [_ [_ ->]]]]]]; auto;
+                apply store_effect in S; [|apply width_small in HW; unfold LOW, ADDR in *; lia];
+                destruct S as (_ & _ & A & B & C & _); auto ];
+    try solve [ apply do_load_cases in H; destruct H as [-> _]; auto ];
+    try solve [ destruct (branch _ _ _ _) as [e0 t0]; inj4 H; auto ];
+    try solve [ destruct (djump _ _) as [e0 t0]; inj4 H; auto ].
+Qed.
+
+Lemma exec_sbrk_pages : forall p pc r m e t r' m' i,
+  instr_of (opcode_at p pc) = ISbrk -> exec p pc r m = (e, t, r', m') ->
+  match get_page m i with
+  | Some pg => get_page m' i = Some pg
+  | None => get_page m' i = None \/ get_page m' i = Some zero_page
+  end.
+Proof.
+  intros p pc r m e t r' m' i HI H. unfold exec in H. rewrite HI in H.
+  destruct (sbrk m _) as [v m2] eqn:S. inj4 H. eapply sbrk_pages; eassumption.
+Qed.
+
+Lemma instr_eq_sbrk : forall i : instr, {i = ISbrk} + {i <> ISbrk}.
+Proof. intros []; try (right; discriminate). left; reflexivity. Qed.
+
+(* ---- step ---- *)
+Lemma step_oog : forall p pc s, gas s < 1 -> step p pc s = (OutOfGas, pc, s).
+Proof. intros p pc s H. unfold step. destruct (gas s <? 1) eqn:E; [reflexivity|lia]. Qed.
+
+Lemma step_exec : forall p pc s, 1 <= gas s ->
+  exists e t r' m', exec p pc (regs s) (mem s) = (e, t, r', m') /\ e <> OutOfGas /\
+    step p pc s =
+    (e, match e with Continue | Host _ => t | Fault _ => pc | _ => 0 end,
+     {| regs := r'; gas := gas s - 1; mem := m' |}).
+Proof.
+  intros p pc s H. destruct (exec p pc (regs s) (mem s)) as [[[e t] r'] m'] eqn:E.
+  exists e, t, r', m'. pose proof (exec_exit _ _ _ _ _ _ _ _ E) as [NO _].
+  split; [reflexivity|split; [assumption|]].
+  unfold step. destruct (gas s <? 1) eqn:G; [lia|]. rewrite E.
+  destruct e; try reflexivity. congruence.
+Qed.
+
+(* every executed instruction costs exactly one unit; out-of-gas exactly when less than one is left,
+   and then nothing at all has changed *)
+Lemma step_costs_one : forall p pc s e pc' s', step p pc s = (e, pc', s') ->
+  (e = OutOfGas /\ gas s < 1 /\ s' = s /\ pc' = pc) \/
+  (e <> OutOfGas /\ 1 <= gas s /\ gas s' = gas s - 1).
+Proof.
+  intros p pc s e pc' s' H. destruct (Z_lt_ge_dec (gas s) 1) as [L|G].
+  - rewrite (step_oog p pc s L) in H. inversion H; subst. left; auto.
+  - destruct (step_exec p pc s ltac:(lia)) as (e0 & t & r' & m' & _ & NO & St).
+    rewrite St in H. inversion H; subst. right. cbn [gas]. repeat split; auto; lia.
+Qed.
+
+Lemma step_wf : forall p pc s e pc' s', wf_code p -> wf_st s -> step p pc s = (e, pc', s') -> wf_st s'.
+Proof.
+  intros p pc s e pc' s' Hc [Hr Hm] H. destruct (Z_lt_ge_dec (gas s) 1) as [L|G].
+  - rewrite (step_oog p pc s L) in H. inversion H; subst. split; assumption.
+  - destruct (step_exec p pc s ltac:(lia)) as (e0 & t & r' & m' & E & _ & St).
+    rewrite St in H. inversion H; subst. unfold wf_st; cbn [regs mem].
+    eapply exec_wf; eassumption.
+Qed.
+
+Lemma step_pc : forall p pc s e pc' s', code_len p + 25 <= ADDR -> 0 <= pc < ADDR ->
+  step p pc s = (e, pc', s') -> 0 <= pc' < ADDR.
+Proof.
+  intros p pc s e pc' s' Hl Hpc H. destruct (Z_lt_ge_dec (gas s) 1) as [L|G].
+  - rewrite (step_oog p pc s L) in H. inversion H; subst. assumption.
+  - destruct (step_exec p pc s ltac:(lia)) as (e0 & t & r' & m' & E & _ & St).
+    rewrite St in H. inversion H; subst. clear St H.
+    destruct (Z_lt_ge_dec pc (code_len p)) as [In|Out].
+    + pose proof (exec_exit _ _ _ _ _ _ _ _ E) as [_ T].
+      pose proof (skip_le_24 p pc).
+      destruct e; try (unfold ADDR; lia); try assumption.
+      * destruct (T (or_introl eq_refl)) as [->|B]; [unfold ADDR in *; lia|].
+        apply bb_start_range in B. unfold ADDR in *; lia.
+      * destruct (T (or_intror (ex_intro _ id eq_refl))) as [->|B]; [unfold ADDR in *; lia|].
+        apply bb_start_range in B. unfold ADDR in *; lia.
+    + rewrite exec_past_end in E by lia. inversion E; subst. unfold ADDR; lia.
+Qed.
+
+Lemma step_gas_le : forall p pc s e pc' s', step p pc s = (e, pc', s') -> gas s' <= gas s.
+Proof.
+  intros. destruct (step_costs_one _ _ _ _ _ _ H) as [(_ & _ & -> & _)|(_ & _ & ->)]; lia.
+Qed.
+
+(* invalid opcode (and everything past the end of the code) = trap *)
+Lemma invalid_opcode_is_trap : forall p pc s, valid_op (zeta p pc) = false -> 1 <= gas s ->
+  step p pc s = (Panic, 0, {| regs := regs s; gas := gas s - 1; mem := mem s |}) /\
+  instr_of (opcode_at p pc) = ITrap.
+Proof.
+  intros p pc s H G. unfold step. destruct (gas s <? 1) eqn:E; [lia|].
+  unfold exec, opcode_at. rewrite H. cbn [instr_of]. split; reflexivity.
+Qed.
+
+(* ecalli hands the WHOLE sign-extended immediate to the host-call boundary *)
+Lemma ecalli_full_immediate : forall p pc s, opcode_at p pc = 10 -> 1 <= gas s ->
+  step p pc s = (Host (imm_at p (pc + 1) (Z.min 4 (skip p pc))), pc + 1 + skip p pc,
+                 {| regs := regs s; gas := gas s - 1; mem := mem s |}).
+Proof.
+  intros p pc s H G. unfold step. destruct (gas s <? 1) eqn:E; [lia|].
+  unfold exec, decode. rewrite H. reflexivity.
+Qed.
+
+(* page-fault exit: state untouched but for the gas charge, counter at the faulting instruction,
+   address between the start of the page of the first accessed byte and the last accessed byte *)
+Lemma step_fault : forall p pc s a pc' s', step p pc s = (Fault a, pc', s') ->
+  pc' = pc /\ regs s' = regs s /\ mem s' = mem s /\ gas s' = gas s - 1 /\
+  exists lo w, access_of (instr_of (opcode_at p pc)) (decode p pc) (regs s) = Some (lo, w) /\
+               PAGE * (lo / PAGE) <= a <= lo + Z.of_nat w - 1.
+Proof.
+  intros p pc s a pc' s' H. destruct (Z_lt_ge_dec (gas s) 1) as [L|G].
+  - rewrite (step_oog p pc s L) in H. discriminate.
+  - destruct (step_exec p pc s ltac:(lia)) as (e0 & t & r' & m' & E & _ & St).
+    rewrite St in H. inversion H; subst. cbn [regs mem gas].
+    apply exec_fault in E. destruct E as (-> & -> & X). auto.
+Qed.
+
+(* a memory instruction that panics (address below 2^16) changes neither registers nor memory *)
+Lemma step_mem_panic : forall p pc s pc' s',
+  is_mem_instr (instr_of (opcode_at p pc)) = true -> step p pc s = (Panic, pc', s') ->
+  regs s' = regs s /\ mem s' = mem s.
+Proof.
+  intros p pc s pc' s' HI H. destruct (Z_lt_ge_dec (gas s) 1) as [L|G].
+  - rewrite (step_oog p pc s L) in H. discriminate.
+  - destruct (step_exec p pc s ltac:(lia)) as (e0 & t & r' & m' & E & _ & St).
+    rewrite St in H. inversion H; subst. cbn [regs mem].
+    eapply exec_mem_panic; eassumption.
+Qed.
+
+Lemma step_heap : forall p pc s e pc' s', wf_regs (regs s) -> step p pc s = (e, pc', s') ->
+  m_hl (mem s') = m_hl (mem s) /\ m_hp (mem s) <= m_hp (mem s') /\ (heap_ok (mem s) -> heap_ok (mem s')).
+Proof.
+  intros p pc s e pc' s' Hr H. destruct (Z_lt_ge_dec (gas s) 1) as [L|G].
+  - rewrite (step_oog p pc s L) in H. inversion H; subst. repeat split; auto; lia.
+  - destruct (step_exec p pc s ltac:(lia)) as (e0 & t & r' & m' & E & _ & St).
+    rewrite St in H. inversion H; subst. cbn [mem]. eapply exec_heap; eassumption.
+Qed.
+
+Lemma step_pages : forall p pc s e pc' s',
+  instr_of (opcode_at p pc) <> ISbrk -> step p pc s = (e, pc', s') ->
+  (forall i, mapped (mem s') i = mapped (mem s) i) /\ (forall x, acc_at (mem s') x = acc_at (mem s) x) /\
+  m_hp (mem s') = m_hp (mem s).
+Proof.
+  intros p pc s e pc' s' HN H. destruct (Z_lt_ge_dec (gas s) 1) as [L|G].
+  - rewrite (step_oog p pc s L) in H. inversion H; subst. auto.
+  - destruct (step_exec p pc s ltac:(lia)) as (e0 & t & r' & m' & E & _ & St).
+    rewrite St in H. inversion H; subst. cbn [mem]. eapply exec_pages; eassumption.
+Qed.
+
+Lemma step_sbrk_pages : forall p pc s e pc' s' i,
+  step p pc s = (e, pc', s') ->
+  match get_page (mem s) i with
+  | Some pg => mapped (mem s') i = true
+  | None => get_page (mem s') i = None \/ get_page (mem s') i = Some zero_page
+  end.
+Proof.
+  intros p pc s e pc' s' i H. destruct (Z_lt_ge_dec (gas s) 1) as [L|G].
+  - rewrite (step_oog p pc s L) in H. inversion H; subst.
+    unfold mapped. destruct (get_page (mem s') i); auto.
+  - destruct (step_exec p pc s ltac:(lia)) as (e0 & t & r' & m' & E & _ & St).
+    rewrite St in H. inversion H; subst. cbn [mem].
+    destruct (instr_eq_sbrk (instr_of (opcode_at p pc))) as [IS|NS].
+    + pose proof (exec_sbrk_pages _ _ _ _ _ _ _ _ i IS E) as P.
+      destruct (get_page (mem s) i); [unfold mapped; rewrite P; reflexivity|assumption].
+    + pose proof (exec_pages _ _ _ _ _ _ _ _ NS E) as (M & _ & _). specialize (M i).
+      unfold mapped in *. destruct (get_page (mem s) i), (get_page m' i); try discriminate; auto.
+Qed.
+
+(* past the end of the code the zero-extended program holds trap: one unit of gas, then panic *)
+Lemma step_past_end : forall p pc s, code_len p <= pc -> 1 <= gas s ->
+  step p pc s = (Panic, 0, {| regs := regs s; gas := gas s - 1; mem := mem s |}).
+Proof.
+  intros p pc s H G. unfold step. destruct (gas s <? 1) eqn:E; [lia|].
+  rewrite exec_past_end by assumption. reflexivity.
 Qed.
